@@ -223,18 +223,21 @@ let () =
          let ok = wf_tenv fuel !cur_te in
          Printf.printf "%s\t%s\t%s\n" id (if ok then "ok" else "not-wf") (if ok then "ok" else "not-wf")
        | "hist" :: _ :: rest ->
-         (* hist <RootTarget> <root record> {G id | P id | M id | S id key value}: (togo r) / pass r to a Go method /
+         (* hist <RootTarget> <root record> {G id | P id | M id | E id npath p.. newid | S id key value}: (togo r) / pass r to a Go method /
             call a Go method ON r (implicit conversion when nothing is attached) / (hset r key v) *)
          let te = !cur_te in
          let defs = Hashtbl.create 16 in
          let (root, rest) = parse_value_with defs rest in
-         let cur = ref root and heap = ref [] and sh = ref [] in
+         let cur = ref (SArr [root]) and heap = ref [] and sh = ref [] in
          let mouts = ref [] and souts = ref [] in
          (* specification side: records that (per the specification) have a Go object attached by an earlier
             successful conversion; a method call on such a receiver does not convert again: silent step "~" *)
-         let attached : (z, unit) Hashtbl.t = Hashtbl.create 16 in
+         (* attached: identity -> the record tree as it was when a Go object was last attached to it.  A method call on
+            a receiver with an attached object converts nothing; the specification speaks there only when the record
+            is unchanged since (its Go object must still hold exactly its values), otherwise it is silent "~" *)
+         let attached : (z, sx) Hashtbl.t = Hashtbl.create 16 in
          let rec mark top v = match v with
-           | SRec (i, _, fs) -> if top then Hashtbl.replace attached i (); List.iter (fun (_, x) -> mark true x) fs
+           | SRec (i, _, fs) -> if top then Hashtbl.replace attached i v; List.iter (fun (_, x) -> mark true x) fs
            | SHash (_, fs) -> List.iter (fun (_, x) -> mark true x) fs
            | SArr l -> List.iter (mark true) l
            | _ -> () in
@@ -251,11 +254,41 @@ let () =
                  | Err | Crash _ -> mouts := "ERR" :: !mouts
                  | OutOfFuel -> mouts := "FUEL" :: !mouts
                  | OutOfModel -> mouts := "OOM" :: !mouts);
-                souts := (if o = "M" && Hashtbl.mem attached idz then "~"
+                souts := (if o = "M" && Hashtbl.mem attached idz && Hashtbl.find attached idz <> r then "~"
                           else match spec_to_go fuel te tname r with
                             | SOk v -> mark (o <> "P") r; "OK " ^ render_d v
                             | SErr _ -> "ERR" | SSilent -> "-" | SFuel -> "FUEL") :: !souts
-              | _ -> failwith "hist: no such record");
+              | _ -> mouts := "ERR" :: !mouts; souts := "~" :: !souts);
+             steps more
+           | "E" :: id :: np :: more ->
+             (* a method on record id returns the pointer at path (field indices; empty = the receiver): a NEW record *)
+             let idz = z_of_string id in
+             let np = int_of_string np in
+             let path = List.map (fun t -> nat_of_int (int_of_string t)) (List.filteri (fun i _ -> i < np) more) in
+             let more = List.filteri (fun i _ -> i >= np) more in
+             let (newid, more) = (match more with n :: m -> (int_of_string n, m) | [] -> failwith "hist: E short") in
+             (match find_rec idz !cur with
+              | Some (SRec (_, tn, _) as r) ->
+                let tname = (match find_reg te tn with Some d -> d.s_name | None -> tn) in
+                if not (Hashtbl.mem attached idz) then
+                  (match spec_to_go fuel te tname r with SOk _ -> mark true r | _ -> ());
+                (match hist_return fuel te tname idz r path !heap !sh with
+                 | Ok (x, (h', sh')) ->
+                   heap := h'; sh := sh';
+                   let ctr = ref (newid - 1) in
+                   let rec relabel v = match v with
+                     | SRec (_, tn0, fs) -> incr ctr; let i = !ctr in SRec (z_of_int i, tn0, List.map (fun (k, y) -> (k, relabel y)) fs)
+                     | SHash (_, fs) -> incr ctr; let i = !ctr in SHash (z_of_int i, List.map (fun (k, y) -> (k, relabel y)) fs)
+                     | SArr l -> SArr (List.map relabel l)
+                     | y -> y in
+                   let x = relabel x in
+                   (match !cur with SArr l -> cur := SArr (l @ [x]) | _ -> ());
+                   mouts := ("OK " ^ render_sx x) :: !mouts
+                 | Err | Crash _ -> mouts := "ERR" :: !mouts
+                 | OutOfFuel -> mouts := "FUEL" :: !mouts
+                 | OutOfModel -> mouts := "OOM" :: !mouts);
+                souts := "~" :: !souts
+              | _ -> mouts := "ERR" :: !mouts; souts := "~" :: !souts);
              steps more
            | "S" :: id :: key :: more ->
              let (v, more) = parse_value_with defs more in
